@@ -56,9 +56,10 @@ def acknowledge (s : Settings) : List (Int × Option Int × Int) × Settings :=
     | _ => e
   (changes, s')
 
-/-- `settings.items()`: (key, current) pairs; a key whose current value is None raises KeyError -/
-def items? (s : Settings) : Option (List (Int × Int)) :=
-  s.mapM fun e => match e.2 with
+/-- `dict(settings)`: (key, current) pairs of the keys that have a current value (a key whose current value is
+    None is not a key of the mapping: `__iter__` skips it, fix: commit) -/
+def items (s : Settings) : List (Int × Int) :=
+  s.filterMap fun e => match e.2 with
     | some v :: _ => some (e.1, v)
     | _ => none
 
